@@ -241,4 +241,31 @@ def matchSchc (rules : List Rule) (s : ABuf) : Py Rule :=
   | some r => pure r
   | none => if rules.isEmpty then throw .unboundLocal else throw .ruleIDMatchError
 
+/-! ### the optional `direction` argument of `compress`, `decompress` and `ContextManager.decompress`
+
+With `direction=None` (the default) both functions walk ALL field descriptors of the rule; with a direction they first
+keep the descriptors marked with that direction or bidirectional — the list comprehension is exactly the one the
+ruler uses — and then run the same code on that list. -/
+
+/-- the rule with only the descriptors that apply to direction `d`, in rule order -/
+def restrict (r : Rule) (d : Dir) : Rule := { r with fields := r.fields.filter (fun f => dirApplies d f.dir) }
+
+/-- the rule a call with `direction=d` works on -/
+def restrictO (r : Rule) (d : Option Dir) : Rule :=
+  match d with
+  | none => r
+  | some d => restrict r d
+
+/-- `compress(packet_descriptor, rule_descriptor, direction)` -/
+def compressD (p : Packet) (r : Rule) (d : Option Dir) : Py ABuf :=
+  match d with
+  | none => compress p r
+  | some d => compress p (restrict r d)
+
+/-- `decompress(schc_packet, rule_descriptor, direction=direction)` -/
+def decompressD (schc : ABuf) (r : Rule) (d : Option Dir) : Py ABuf :=
+  match d with
+  | none => decompress schc r
+  | some d => decompress schc (restrict r d)
+
 end Schc
